@@ -386,3 +386,99 @@ Section ScanElem.
         destruct (existsb nsd e1), (nsd c); cbn [orb] in IH; exact IH.
   Qed.
 End ScanElem.
+
+(* ---- skipping / collapsing whole fields ------------------------------------------------------------ *)
+Definition isname (e : elem) : bool := existsb nsd e.
+
+Lemma last_not_sep : forall e, sepfree e -> e <> [] -> exists e' y, e = e' ++ [y] /\ y <> SEP.
+Proof.
+  intros e Hs Hne. destruct (exists_last Hne) as (e' & y & ->). exists e', y. split; [reflexivity|].
+  unfold sepfree in Hs. rewrite Forall_app in Hs. destruct Hs as [_ Hs]. inversion Hs; assumption.
+Qed.
+
+(* a field followed by a separator, no collapse *)
+Lemma skip1 : forall pre e q last next r,
+  sepfree e -> nonzero e -> e <> [] ->
+  (pre = [] \/ exists p', pre = p' ++ [SEP]) -> (pre = [] -> next = 0%nat) ->
+  ~ (e = DD /\ (last < length (pre ++ e ++ SEP :: q))%nat /\ (2 <= length pre)%nat) ->
+  (forall nx, dd_res (length (pre ++ e ++ [SEP])) (pre ++ e ++ SEP :: q)
+                     (if isname e then length pre else last) nx r) ->
+  dd_res (length pre) (pre ++ e ++ SEP :: q) last next r.
+Proof.
+  intros pre e q last next r Hsf Hnz Hne Hpre Hnext Hnf Hr.
+  pose proof (scan_chars pre (SEP :: q) e last next r Hsf Hnz Hne Hpre Hnext e [] eq_refl Hnf) as SC.
+  cbn [length existsb] in SC. rewrite Nat.add_0_r in SC. apply SC. clear SC.
+  (* the separator byte *)
+  destruct (last_not_sep e Hsf Hne) as (e' & y & Ee & Hy).
+  assert (ET : pre ++ e ++ SEP :: q = ((pre ++ e') ++ [y]) ++ SEP :: q).
+  { rewrite Ee. rewrite <- !app_assoc. reflexivity. }
+  assert (Ei : (length pre + length e)%nat = length ((pre ++ e') ++ [y])).
+  { rewrite Ee. rewrite !app_length. cbn [length]. lia. }
+  apply dd_res_adv.
+  - rewrite Ei, ET. rewrite (app_length _ (SEP :: q)). cbn [length]. lia.
+  - destruct (fire _ _ _) eqn:Ef; [|reflexivity]. apply fire_needs in Ef as (_ & _ & _ & _ & Ef & _).
+    rewrite Ei, ET, nth_at in Ef. discriminate.
+  - assert (En : nxt (pre ++ e ++ SEP :: q) (length pre + length e) (length pre) = length pre).
+    { unfold nxt. rewrite Ei, ET, nth_prev1. replace (y =? SEP) with false by lia. rewrite andb_false_r. reflexivity. }
+    assert (Ec : nth (length pre + length e) (pre ++ e ++ SEP :: q) 0 = SEP) by (rewrite Ei, ET; apply nth_at).
+    unfold lst. rewrite En, Ec.
+    change (nsd SEP) with false. cbv iota.
+    specialize (Hr (length pre)).
+    replace (length (pre ++ e ++ [SEP])) with (S (length pre + length e)) in Hr
+      by (rewrite !app_length; cbn [length]; lia).
+    exact Hr.
+Qed.
+
+(* the last field (no separator after it), no collapse: the pass ends, text unchanged *)
+Lemma skip_last : forall pre e last next,
+  sepfree e -> nonzero e -> e <> [] ->
+  (pre = [] \/ exists p', pre = p' ++ [SEP]) -> (pre = [] -> next = 0%nat) ->
+  ~ (e = DD /\ (last < length (pre ++ e))%nat /\ (2 <= length pre)%nat) ->
+  dd_res (length pre) (pre ++ e) last next (pre ++ e).
+Proof.
+  intros pre e last next Hsf Hnz Hne Hpre Hnext Hnf.
+  pose proof (scan_chars pre [] e last next (pre ++ e) Hsf Hnz Hne Hpre Hnext e [] eq_refl) as SC.
+  rewrite app_nil_r in SC. cbn [length existsb] in SC. rewrite Nat.add_0_r in SC. apply SC; [exact Hnf|].
+  apply dd_res_exit. rewrite app_length. lia.
+Qed.
+
+(* a ".." field with a name before it: collapse and restart *)
+Lemma fire_dd : forall p' post last next r,
+  (post = [] \/ exists q, post = SEP :: q) ->
+  (last < length ((p' ++ [SEP]) ++ DD ++ post))%nat -> (1 <= length p')%nat ->
+  dd_res 0 (firstn last ((p' ++ [SEP]) ++ DD ++ post) ++ tl post)
+           (length (firstn last ((p' ++ [SEP]) ++ DD ++ post) ++ tl post)) 0 r ->
+  dd_res (length (p' ++ [SEP])) ((p' ++ [SEP]) ++ DD ++ post) last next r.
+Proof.
+  intros p' post last next r Hpost Hl Hp Hr.
+  set (T := (p' ++ [SEP]) ++ DD ++ post) in *.
+  assert (ET0 : T = (p' ++ [SEP]) ++ DOT :: (DOT :: post)) by reflexivity.
+  assert (ET1 : T = (p' ++ [SEP; DOT]) ++ DOT :: post) by (unfold T; rewrite <- !app_assoc; reflexivity).
+  (* first dot *)
+  apply dd_res_adv.
+  - rewrite ET0. rewrite (app_length _ (DOT :: DOT :: post)). cbn [length]. lia.
+  - destruct (fire _ _ _) eqn:Ef; [|reflexivity]. apply fire_needs in Ef as (_ & _ & _ & Ef & _).
+    rewrite ET0 in Ef. rewrite nth_prev1 in Ef. discriminate.
+  - assert (E0 : nth (length (p' ++ [SEP])) T 0 = DOT) by (rewrite ET0; apply nth_at).
+    unfold lst. rewrite E0. change (nsd DOT) with false. cbv iota.
+    (* second dot: collapse *)
+    assert (Ei : S (length (p' ++ [SEP])) = length (p' ++ [SEP; DOT])) by (rewrite !app_length; cbn [length]; lia).
+    rewrite Ei. apply dd_res_fire.
+    + rewrite ET1. rewrite (app_length _ (DOT :: post)). cbn [length]. lia.
+    + rewrite ET1 at 1. rewrite fire_at. rewrite <- ET1.
+      replace (last <? length T)%nat with true by lia. replace (1 <=? length p')%nat with true by lia.
+      rewrite !Z.eqb_refl. cbn [andb]. destruct Hpost as [-> | [q ->]]; reflexivity.
+    + assert (Ecut : cut T (length (p' ++ [SEP; DOT])) last = firstn last T ++ tl post).
+      { assert (Enx : nth (length (p' ++ [SEP; DOT]) + 1) T 0 = hd 0 post) by (rewrite ET1; apply nth_next).
+        unfold cut, cut_i1. rewrite Enx. f_equal.
+        destruct Hpost as [-> | [q ->]].
+        - cbn [hd]. replace (0 =? SEP) with false by reflexivity. cbn [tl].
+          rewrite ET1. rewrite skipn_all2; [reflexivity|]. rewrite !app_length. cbn [length]. lia.
+        - cbn [hd tl]. rewrite Z.eqb_refl. rewrite ET1.
+          replace (length (p' ++ [SEP; DOT]) + 1 + 1)%nat with (length ((p' ++ [SEP; DOT]) ++ [DOT; SEP]) + 0)%nat
+            by (rewrite !app_length; cbn [length]; lia).
+          replace ((p' ++ [SEP; DOT]) ++ DOT :: SEP :: q) with (((p' ++ [SEP; DOT]) ++ [DOT; SEP]) ++ q)
+            by (rewrite <- !app_assoc; reflexivity).
+          rewrite skipn_app, Nat.add_0_r, skipn_all, Nat.sub_diag. reflexivity. }
+      rewrite Ecut. exact Hr.
+Qed.
